@@ -89,11 +89,15 @@ AView == <<state, chalSet, revealed, hasStale, fresh, proof, negotiated, ncalls>
 
 \* ------------------------------------------------------------------ layer 2: wire
 \* the peer's three turns; "-" = turn not reached
+\* a frame of length zero is a keep-alive only once connected; during the handshake it is a malformed message whatever follows it
+\* ("empty_then_X": an empty frame, then the conforming message and the rest of the protocol; "empty_stream": empty frames, several
+\* per timeout period, in place of silence)
 PeerStatus == {"ok", "ok_simultaneous", "nok", "not_allowed", "alive", "unknown_status", "wrong_tag", "empty_frame",
-               "oversized_length", "silence", "close", "challenge_first", "ack_first"}
+               "oversized_length", "silence", "close", "challenge_first", "ack_first", "empty_then_ok", "empty_stream"}
 PeerChallenge == {"good", "good_extra_bytes", "wrong_tag", "truncated", "name_len_lies", "non_utf8_name", "oversized_length",
-                  "silence", "close", "status_again", "ack_instead"}
-PeerAck == {"right", "right_extra_bytes", "wrong_digest", "digest_of_own_challenge", "wrong_tag", "short", "silence", "close", "challenge_again"}
+                  "silence", "close", "status_again", "ack_instead", "empty_frame", "empty_then_good", "empty_stream"}
+PeerAck == {"right", "right_extra_bytes", "wrong_digest", "digest_of_own_challenge", "wrong_tag", "short", "silence", "close", "challenge_again",
+            "empty_frame", "empty_then_right", "empty_stream"}
 Conforming(s, c, a) == s \in {"ok", "ok_simultaneous"} /\ c \in {"good", "good_extra_bytes"} /\ a \in {"right", "right_extra_bytes"}
 \* scripts: a deviation ends the handshake, later turns are not reached
 Scripts == { <<s, "-", "-">> : s \in PeerStatus \ {"ok", "ok_simultaneous"} }
